@@ -92,7 +92,13 @@ def write_genome(d, chroms, tag, with_bw=True):
             seqs[name] = s.upper()
             sig = []
             for t in tiles:
-                sig.extend([SIG[t]] * W)
+                # not constant inside a tile: the first and the last base of a covered tile carry extra counts, so a summed window
+                # that is off by one base has a different total
+                v = [SIG[t]] * W
+                if SIG[t] > 0:
+                    v[0] += 7
+                    v[-1] += 11
+                sig.extend(v)
             sig.extend([0] * len(tail))
             sigs[name] = numpy.array(sig, dtype=numpy.float64)
             fh.write(">%s\n%s\n" % (name, s))
@@ -125,7 +131,8 @@ def run_chrom(rec, sh, tier, seed):
             s = seqs["c"]
             for width in (0.1, 0.25):
                 for mnp in (0.0, 0.1, 0.5):
-                    for (use_bw, ow, thr) in ((False, W, None), (True, W, 0), (True, W - 1, 0), (True, W - 4, 6), (True, W - 1, 30), (True, W, 17)):
+                    for (use_bw, ow, thr) in ((False, W, None), (True, W, 0), (True, W - 1, 0), (True, W - 4, 6), (True, W - 1, 30), (True, W, 17), (True, W - 1, 17),
+                                            (True, W - 3, 10), (True, W - 2, 12), (True, W - 1, 64)):
                         exp = {}
                         for t in range(len(s) // W):
                             tile = s[t * W:(t + 1) * W]
